@@ -62,7 +62,7 @@ template<class C, class Proj> static bool postfix_in_child(const C& c, Proj proj
       for (auto& s : saved) b.push_back(proj(*s)); }                           // dereferenced after `it` went on to the end
     std::string out = join(a) + "\n" + join(b) + "\n" + join(eq) + "\n";
     size_t off = 0; while (off < out.size()) { ssize_t w = write(p[1], out.data() + off, out.size() - off); if (w <= 0) break; off += (size_t)w; }
-    _exit(0);
+    vt::child_exit(0);
   }
   close(p[1]);
   std::string s; char buf[4096]; ssize_t n;
